@@ -42,7 +42,8 @@ class Generated:
         self.trusted = []      # descriptions of trusted items
         self.fn_keys = []
         self.missing = []
-        self.probed = []      # contracted functions that no longer exist: (file, key, props)
+        self.probed = []
+        self.uncontracted = []     # kept functions (verified with their bodies) that carry no contract      # contracted functions that no longer exist: (file, key, props)
     def text(self):
         return '\n'.join(self.lines) + '\n'
 
@@ -155,6 +156,7 @@ def generate(unit, repo_src=None, modes=None, probe=False):
                     h = hashlib.sha256(fn.text().encode()).hexdigest()[:16]
                     g.trusted.append('trusted body (pinned text %s): %s' % (h, key))
             g.fn_keys.append(key)
+            if spec is None: g.uncontracted.append(key)
         missing = [k for k in sf.fns if k not in f.fns]
         for k_ in missing:
             g.missing.append((sf.name, k_, list(sf.fns[k_].props) or list(sf.props)))
